@@ -21,6 +21,10 @@ CHECKS = {
          "The harness owns the schedule of the plan cache's two critical sections through the yield hook: all interleavings are enumerated for 2x2, 3x1 and selected 3x2 request shapes (also with the cache at capacity), and generated request histories/schedules (incl. 60-90 distinct sizes to force eviction and re-requests of evicted sizes) are explored; after every critical section the capacity bound, the queue/key bijection and key == plan size are checked, and every encoder is compared (== and packet-wise) with encoders built without the cache. An uncontrolled multi-thread stress run adds the same invariants at the end.",
          "Sound reduction to critical-section granularity assumes all shared state is behind the cache Mutex (true in this tree) and std::sync::Mutex is correct; exhaustive only for the listed small shapes.",
          "DESIGN.md 5/C17"),
+ "C07": ("multi-build differential testing over a seeded generated workload (SHA-256 per case and configuration)",
+         "The same generated workload is run in 4 cargo builds (release / debug-assertions+overflow-checks x std / no_std) and, inside the release-std build, under every forced kernel (AVX-512, AVX2, SSSE3, portable, default) x sparse threshold {0, 250, inf} x plan mode {new, new again (cache hit), with_encoding_plan, unplanned}; every configuration must produce the identical digest of packets + decode outcome + decoded bytes for every case (undecodable cases included).",
+         "Differential: agreement of all configurations, not absolute correctness (that is C01/C04). NEON and 32-bit x86 cannot run here. The dispatch override hook is trusted.",
+         "DESIGN.md 5/C07"),
  "C13": ("exhaustive enumeration (payload IDs) + proptest vs. reference (de)serialisers",
          "All 2^32 payload-ID buffers are parsed and re-serialised against the RFC 3.2 layout (exhaustive); packets and the 12-byte transmission information are checked on generated buffers/values (field-boundary biased) against reference (de)serialisers written from RFC 3.3.2/3.3.3, both directions.",
          "Reference layouts written from the RFC text; OTI and packet sub-checks are sampled, not exhaustive.",
@@ -103,7 +107,7 @@ na = [{"property_id": p["id"], "reason": PENDING.get(p["id"], "check not built y
       for p in props if p["id"] not in CHECKS]
 m = {
  "version": 1,
- "setup_cmd": "cd /verif/harness && CARGO_NET_OFFLINE=true cargo build --release -p rqv",
+ "setup_cmd": "cd /verif && CARGO_NET_OFFLINE=true ./tools/setup.sh",
  "hooks": {
    "guard": "cargo feature `verif` of the raptorq crate (off by default)",
    "enable": "harness crates depend on raptorq by path with features [\"verif\", \"benchmarking\"] (no_std builds: default-features=false, features [\"verif\"])",
@@ -112,7 +116,8 @@ m = {
    "add_only": True,
  },
  "engines": [
-   {"name": "rqv", "path": "/verif/harness/rqv", "serves_properties": sorted(CHECKS), "kind_free_text": "Rust binary: proptest TestRunner shards (fixed seeds, shrinking), exhaustive enumerators, independent RFC 6330 reference model"},
+   {"name": "rqv", "path": "/verif/harness/rqv", "serves_properties": sorted(CHECKS), "kind_free_text": "Rust binary (built in profiles release and chk = release+debug-assertions+overflow-checks): proptest TestRunner shards (fixed seeds, shrinking), exhaustive enumerators, controlled scheduler, guard-page child process, independent RFC 6330 reference model"},
+   {"name": "digest", "path": "/verif/harness/digest", "serves_properties": ["C07"], "kind_free_text": "standalone Rust binary built in 4 cargo configurations (release/chk x std/no_std); prints per-(case, configuration) SHA-256 digests of a seeded workload"},
  ],
  "checks": checks,
  "not_applicable": na,
